@@ -13,4 +13,27 @@ Export ==
     IF Len(hist') <= MaxLen
     THEN Serialize(ToJson([h |-> hist']) \o "\n", IOEnv.GEN_OUT, AppendOpts).exitValue = 0
     ELSE TRUE
+
+\* ---- richer starting lists (same-named neighbours away from the head, mixed GDSII entries) ----
+\* each prefix is itself a history from the empty list, so a generated history is still complete
+PreLen == 4
+Pre == { <<H("set", "b", V("u", 1), TRUE), H("set", "b", V("i", 2), TRUE), H("set", "a", V("r", 3), TRUE),
+           H("set", "a", V("s", "xy"), FALSE)>>,                                        \* a(2 values) b b
+         <<H("set", "a", V("u", 1), TRUE), H("set", "b", V("u", 1), TRUE), H("set", "b", V("i", 2), TRUE),
+           H("set", "a", V("i", 2), TRUE)>>,                                            \* a b b a
+         <<H("set", "b", V("u", 1), TRUE), H("set", "b", V("r", 3), TRUE), H("set", "b", V("i", 2), TRUE),
+           H("set", "a", V("u", 1), TRUE)>>,                                            \* a b b b
+         <<H("setgds", "", UVal(1), FALSE) @@ [s |-> "p"], H("setgds", "", UVal(2), FALSE) @@ [s |-> "qq"],
+           H("set", "a", V("u", 1), TRUE), H("set", GdsName, V("u", 1), TRUE)>> }       \* gds-named a gds gds
+ApplyH(pl, e) == CASE e.op = "set" -> SetProperty(pl, e.n, e.v, e.f)
+                   [] e.op = "setgds" -> SetGdsProperty(pl, e.v.x, e.s)
+                   [] OTHER -> pl
+RECURSIVE FoldH(_, _, _)
+FoldH(pl, h, i) == IF i > Len(h) THEN pl ELSE FoldH(ApplyH(pl, h[i]), h, i + 1)
+InitRich == \E p \in Pre : hist = p /\ plist = FoldH(<<>>, p, 1) /\ res = "none"
+BoundedRich == Len(hist) <= PreLen + MaxLen
+ExportRich ==
+    IF Len(hist') <= PreLen + MaxLen
+    THEN Serialize(ToJson([h |-> hist']) \o "\n", IOEnv.GEN_OUT, AppendOpts).exitValue = 0
+    ELSE TRUE
 =============================================================================
